@@ -75,10 +75,13 @@ def functions():
 
 def matrix():
     res = load('selftest/results.json', {})
+    notes = load('selftest/notes.json', {})
     if not res:
         return '(selftest has not been run)'
     rows = {'seeded': [], 'rev': [], 'mut': [], 'preserving': []}
     for cid, r in sorted(res.items()):
+        if re.fullmatch(r'C\d\d[A-Z]', cid) and not os.path.exists(os.path.join(HERE, 'seeded', cid, 'patch.diff')):
+            continue                                  # a retired seed (seeded/_retired)
         if not r.get('applies'):
             rows['rev' if cid.startswith('rev:') else 'mut'].append((cid, r, 'does not apply to the current tree'))
             continue
@@ -88,7 +91,7 @@ def matrix():
             verdict = 'quiet' if all(e == 0 for e in exits.values()) else 'FALSE ALARM'
             rows['preserving'].append((cid, r, verdict))
             continue
-        verdict = 'caught' if any(e == 1 for e in exits.values()) else 'MISSED'
+        verdict = 'caught' if any(e == 1 for e in exits.values()) else ('not reported - ' + notes[cid] if cid in notes else 'MISSED')
         kinds = []
         for b in by:
             kinds.append('K4 ' + b if '.monitor.' in b else b)
@@ -101,12 +104,14 @@ def matrix():
         if not rows[g]:
             continue
         n_ok = sum(1 for _, _, v in rows[g] if v.startswith('caught') or v == 'quiet')
+        n_exp = sum(1 for _, _, v in rows[g] if v.startswith('not reported - '))
         n_na = sum(1 for _, _, v in rows[g] if v.startswith('does not'))
-        out.append(f'\n**{names[g]}** - {n_ok} of {len(rows[g]) - n_na} as expected' + (f' ({n_na} no longer apply)' if n_na else '') + '\n')
+        out.append(f'\n**{names[g]}** - {n_ok} of {len(rows[g]) - n_na} ' + ('quiet' if g == 'preserving' else 'reported') + (f', {n_exp} not reported for the reason given' if n_exp else '') +
+                   (f' ({n_na} no longer apply to the current tree)' if n_na else '') + '\n')
         out.append('| change | what | result: obligations / bounded checks that reported it |')
         out.append('|---|---|---|')
         for cid, r, v in rows[g]:
-            out.append(f"| {cid} | {r.get('what', '')[:90].replace('|', chr(92) + '|')} | {v.replace('|', chr(92) + '|')[:260]} |")
+            out.append(f"| {cid} | {r.get('what', '')[:90].replace('|', chr(92) + '|')} | {v.replace('|', chr(92) + '|')[:330]} |")
     return '\n'.join(out)
 
 
